@@ -19,6 +19,8 @@ def build(table="module"):
     S.load_module(rs)
     import spec.protocol_spec as prs
     S.load_module(prs)
+    import spec.box_spec as bxs
+    S.load_module(bxs)
     import rpyc.core.channel as ch
     S.consts["C"] = tables.frame_consts_from_module(ch)
     import rpyc.core.stream as stream_mod
@@ -35,7 +37,7 @@ def build(table="module"):
     S.consts["T"] = T
     S.consts["PERM_INVARIANT"] = bs.PERM_INVARIANT
     st = store.Store()
-    for m in ("brine", "compat", "externals", "stream", "channel", "protocol_attr", "colls", "protocol_box", "protocol_core", "async_", "protocol_close"):
+    for m in ("brine", "compat", "externals", "stream", "channel", "protocol_attr", "colls", "protocol_box", "protocol_core", "async_", "protocol_close", "lib"):
         importlib.import_module("contracts." + m).register(st)
     lib = libmodels.Lib(S)
     ex = engine.Executor(st, REPO, S, lib)
